@@ -274,17 +274,20 @@ def judge_layers(case) -> Outcome:
 
 
 def gen_dot(rng: random.Random, tier: str) -> dict:
-    names = rng.sample(["a", "b", "c", "d", "e", "x1", "q q", "zz", "y"], rng.randint(2, 7))
+    names = rng.sample(["a", "b", "c", "d", "e", "x1", "q q", "zz", "y", "y.lag", "Sepal.Length", "Sepal", "a.b", "b.c.d"], rng.randint(2, 8))
     if "y" not in names:
         names.insert(rng.randint(0, len(names)), "y")
     others = [n for n in names if n != "y"]
-    lhs = ["y"] + (rng.sample(others, 1) if rng.random() < 0.3 and len(others) > 1 else [])
+    resp = rng.choice([n for n in names if "." in n] or ["y"]) if rng.random() < 0.35 else "y"
+    others = [n for n in names if n != resp]
+    lhs = [resp] + (rng.sample(others, 1) if rng.random() < 0.3 and len(others) > 1 else [])
     extra = rng.choice(["", "", " + I(y*0 + 1)", " - {v}", " + {v}:{w}"])
     rest = [n for n in names if n not in lhs]
     v = rng.choice(rest)
     w = rng.choice(rest)
     extra = extra.format(v=f"`{v}`", w=f"`{w}`")
-    return {"names": names, "lhs": lhs, "extra": extra, "v": v, "w": w, "icpt": rng.random() < 0.7}
+    return {"names": names, "lhs": lhs, "extra": extra, "v": v, "w": w, "icpt": rng.random() < 0.7,
+            "parser": rng.choice(["default", "default", "no_intercept"])}
 
 
 def judge_dot(case) -> Outcome:
@@ -293,18 +296,27 @@ def judge_dot(case) -> Outcome:
 
     out = Outcome()
     names, lhs = case["names"], case["lhs"]
-    out.sig = (len(names), len(lhs), case["extra"].split("`")[0], names.index("y"), case["icpt"])
+    nointercept = case.get("parser") == "no_intercept"
+    out.sig = (len(names), len(lhs), case["extra"].split("`")[0], names.index(lhs[0]), case["icpt"], "." in lhs[0], nointercept)
     rng = np.random.default_rng(len(names))
     df = pd.DataFrame({n: rng.normal(size=5) for n in names})
-    f = " + ".join(f"`{n}`" for n in lhs) + " ~ " + ("" if case["icpt"] else "0 + ") + "." + case["extra"]
+    head = ("" if case["icpt"] else "0 + ") if not nointercept else ("1 + " if case["icpt"] else "")
+    f = " + ".join(f"`{n}`" for n in lhs) + " ~ " + head + "." + case["extra"]
     expected = [n for n in names if n not in lhs]
     if case["extra"].startswith(" - "):
         expected = [n for n in expected if n != case["v"]]
     try:
         with quiet():
-            mm = model_matrix(f, df, context={})
+            if nointercept:
+                from formulaic import Formula
+                from formulaic.parser import DefaultFormulaParser
+
+                form = Formula(f, _parser=DefaultFormulaParser(include_intercept=False), _context={"__formulaic_variables_available__": list(names)})
+                mm = form.get_model_matrix(df, context={})
+            else:
+                mm = model_matrix(f, df, context={})
     except Exception as e:  # noqa: BLE001
-        out.fail("c17.dot_raised", f"{f!r} on columns {names}: {type(e).__name__}: {str(e)[:150]}")
+        out.fail("c17.dot_raised", f"{f!r} on columns {names} (parser={case.get('parser')}): {type(e).__name__}: {str(e)[:150]}")
         return out
     got = [c for c in colnames(mm.rhs) if c != "Intercept"]
     first_order = [c for c in got if ":" not in c and not c.startswith("I(")]
